@@ -345,18 +345,26 @@ class Engine(TorchDispatchMode):
             cells[i] = v
             diag = len(ix) >= 2 and ix[-1] == ix[-2]
             pos = positive or (posdiag and diag)
+            # NOTE: constraint terms are built BEFORE the sign / bound knowledge is declared (afterwards the smart
+            # constructors would fold them to True and the solver would never see them)
+            cons = []
+            if pos:
+                cons.append(T.gt(v, 0))
+            elif nonneg:
+                cons.append(T.ge(v, 0))
+            if lo is not None:
+                cons.append(T.ge(v, lo))
+            if hi is not None:
+                cons.append(T.lt(v, hi))
+            self.path.extend(cons)
             if pos:
                 T.declare_positive(v)
-                self.path.append(T.gt(v, 0))
             elif nonneg:
                 T.declare_nonneg(v)
-                self.path.append(T.ge(v, 0))
             if kind == "int" and lo is not None and hi is not None:
                 T.declare_range(nm, lo, hi)
-            if lo is not None:
-                self.path.append(T.ge(v, lo))
-            if hi is not None:
-                self.path.append(T.lt(v, hi))
+            if kind == "real" and (lo is not None or hi is not None):
+                T.declare_bounds(v, Fraction(lo) if lo is not None else None, Fraction(hi) if hi is not None else None)
             if nm in self.witness:
                 w = self.witness[nm]
             elif kind == "real":
